@@ -9,7 +9,7 @@ KINDS = ('c06-diff',)
 
 def consume(run, results, kinds, pid):
     n_jobs = n_ok = 0
-    skipped = {'rejected': 0, 'unencodable': 0, 'unsupported': 0}
+    skipped = {'rejected': 0, 'unencodable': 0, 'unsupported': 0, 'unmatched': 0}
     unenc = []
     for r in results:
         n_jobs += 1
@@ -32,7 +32,7 @@ def consume(run, results, kinds, pid):
                 continue
             ob = f"{pid}/{f['kind']}:{r['label']}[{r['cname']}]@state={f['pre']['state']}/{f['sym']}"
             w = {'program': r['label'], 'config': r['cname'], 'flags': f['flags'], 'state': f['pre']['state'], 'sym': f['sym'],
-                 'byte': f.get('byte'), 'what': f['what'], 'detail': f['detail'], 'ins': f.get('ins', ''), 'abs_code': f.get('abs_code'),
+                 'byte': f.get('byte'), 'bytes': f.get('bytes'), 'parts': f.get('parts'), 'next_byte': f.get('next_byte'), 'what': f['what'], 'detail': f['detail'], 'ins': f.get('ins', ''), 'abs_code': f.get('abs_code'),
                  'pre': f['pre'], 'replay': f['replay'], 'cfg_on': f.get('cfg_on', []),
                  'null_strs_with_default': f.get('null_strs_with_default', []), 'has_raw': f.get('has_raw', False)}
             rep = f['replay'].get('reproduced')
